@@ -35,6 +35,9 @@ let judge_grpc_message msg (raw : BinNums.coq_N list option) =
 let run inp obs : string option * string option =
   match inp with
   | ["C05"; proto; code; msg; details; k; _shape] ->
+    (* "^<flags>" behind the shape: handler modes (explicit SendHeader first, a detail of an unknown type, its own status after the
+       deadline) -- the status the client must be told is the same *)
+    let _shape = (match String.index_opt _shape '^' with Some i -> String.sub _shape 0 i | None -> _shape) in
     let codez = z_of_string code and msgb = bytes_of_hex msg and k = int_of_string k and details = (details = "1") in
     let code_i = int_of_string code in
     let is_ok = (code_i = 0) in
